@@ -7,15 +7,22 @@
 // after EVERY step the library is observed through all its designation routes (name, column
 // index, UID, role/rank) and compared with the table (bit-equal, NA = TEST).
 //
+// Sub-properties: db_seq (Db), grid_seq (DbGrid), db_gaps (role ranks beyond the count are allowed: once a
+// gap exists only memory safety is checked and the table follows the library), db_hazard (db_seq plus
+// arguments that the unrepaired library does not range-check: negative role rank, sample rank beyond the
+// count, array given although no sample is active: must be rejected without effect).
+//
 // Conventions taken from the code and named as assumptions in the report:
-//  * name arguments are patterns (expandList): the harness only uses names of the form
-//    [A-Za-z_]+[0-9]?(\.[0-9]+)* for which a pattern matches exactly itself;
+//  * name arguments are patterns (expandList, '.' matches any character): the harness only uses names of the
+//    form [A-Za-z_]+[0-9]?(\.[0-9]+)* ; multiple additions (library names radix-k) use radices of their own
+//    so that a pattern matches exactly itself (5 % of the cases set ambig=1 and end after such an addition);
 //  * an unknown name inside a *list* of names is skipped (pattern without match);
 //  * setLocator*(.., locatorIndex >= 0) replaces the holder of that rank, locatorIndex < 0 appends;
-//    indices beyond the current count create the gaps the API tolerates: they are only generated
-//    in the sub-property 'db_gaps' which checks memory safety only;
+//    indices beyond the current count create the gaps the API tolerates: only generated in 'db_gaps';
 //  * "unique" locators (sel, w, code, ...) are kept to at most one column by construction;
-//  * name de-duplication is a predicate: unique and requested-name followed by (.k)* suffixes.
+//  * name de-duplication is a predicate: unique and requested-name followed by (.k)* suffixes;
+//  * a failure whose key is excluded (known finding) does not end the history: the table is re-read from
+//    the library and, if that table is a consistent one, the remaining steps are still checked.
 #include "verif.hpp"
 
 #include "Db/Db.hpp"
